@@ -4,8 +4,8 @@ package drivers
 // under test is the driver process's own (set per case; cases run one at a time per process).
 
 import (
-	"crypto/tls"
 	"bytes"
+	"crypto/tls"
 	"encoding/json"
 	"errors"
 	"fmt"
